@@ -460,12 +460,12 @@ REG['C15'] = Spec('C15', c15_jobs, tags=['C15', 'C01'], memsafe=True, explanatio
 from .jobs import cmp_job
 def c16_jobs(tier):
     js = []
-    stds = ['c++17', 'c++20'] if tier == 'quick' else ['c++11', 'c++14', 'c++17', 'c++20', 'c++23']
+    stds = ['c++17', 'c++20'] if tier == 'quick' else ['c++11', 'c++14', 'c++17', 'c++20', 'c++2b']
     for std in stds:
         for el in ['int', 'Tv', 'Tw'] + (['Tr'] if tier != 'quick' or std == 'c++20' else []):
             for (na, nb, ca, cb) in ([(2, 2, 4, 4), (2, 3, 2, 4), (0, 2, 3, 2)] if tier == 'quick' else [(2, 2, 4, 4), (2, 2, 2, 2), (2, 3, 2, 4), (3, 2, 4, 2), (0, 2, 3, 2), (0, 0, 4, 4), (2, 0, 2, 4)]):
                 js.append(cmp_job(0, el, na, nb, ca, cb, std=std))
-        js.append(cmp_job(0, 'int', 2, 3, 4, 4, std=std, extra_clang=['-DGCH_DISABLE_CONCEPTS'], tag='-noconcepts') if std in ('c++20', 'c++23') else None)
+        js.append(cmp_job(0, 'int', 2, 3, 4, 4, std=std, extra_clang=['-DGCH_DISABLE_CONCEPTS'], tag='-noconcepts') if std in ('c++20', 'c++2b') else None)
     for std in stds[-2:]:
         for el in ['int', 'Tr']:
             js.append(cmp_job(1, el, 2, 0, 4, 4, std=std)); js.append(cmp_job(3, el, 2, 0, 4, 4, std=std)); js.append(cmp_job(1, el, 2, 3, 2, 3, std=std)); js.append(cmp_job(3, el, 2, 3, 2, 3, std=std))
